@@ -47,7 +47,7 @@ vw == s
 
 AllDeviations == {"RenameKeepsLabel", "WsRemoveKeepsChild", "HoleRemovalKeepsObjectRows",
                   "HoleRemovalKeepsGroupChild", "StalePgIdCache", "EmptyTableRaises", "TableByLabel",
-                  "CopySharesRecords", "PlainChildNotUnlinked", "UngroupedDataNotLoaded", "FailedCreateKeepsKey", "HoleRemovalKeepsEmptyPgRow"}
+                  "CopySharesRecords", "PlainChildNotUnlinked", "UngroupedDataNotLoaded", "FailedCreateKeepsKey", "HoleRemovalKeepsEmptyPgRow", "CopyTypesPurged"}
 Dev(d) == d \in Deviations
 
 NDV == 0 - 1
@@ -696,6 +696,20 @@ CopyEdit ==
          THEN Done([s EXCEPT !.broken = TRUE], "CopyEdit", [h |-> h, name |-> name], "raises", {"CopySharesRecords"}, NoTgt)
          ELSE Done(s, "CopyEdit", [h |-> h, name |-> name], "ok", {}, NoTgt)
 
+\* group.copy(parent=other_workspace); then, in the same session of the target, an unrelated group is created and removed;
+\* the target is closed, opened again, and every data set of every hole of the copy is read (outcome ok / exception; the
+\* values read are compared with the source's).  As built the fast path of Concatenator.copy (253-262) saves the data
+\* types in the target but keeps no reference to the DataType objects (the copied data are loaded lazily):
+\* Workspace.remove_entity -> remove_none_referents(self._types) deletes their nodes, which the copied records still
+\* name by 'Type ID'; the data of the copy can no longer be loaded.  The source is not affected.
+CopyPurge ==
+    /\ \A x \in LiveHoles(s) : ~Unclean(s, x)
+    /\ ~Corrupt(s) /\ s.objIds # <<>>
+    /\ LET hasData == \E h \in LiveHoles(s) : s.hs[h].ch # <<>>
+       IN IF Dev("CopyTypesPurged") /\ hasData
+          THEN Done(s, "CopyPurge", [holes |-> s.objIds], "refused", {"CopyTypesPurged"}, NoTgt)
+          ELSE Done(s, "CopyPurge", [holes |-> s.objIds], "ok", {}, NoTgt)
+
 \* hole.add_data({"o": {"association": "OBJECT", "values": ...}}) : concatenated data outside every property group
 AddObjectData ==
     \E h \in Holes :
@@ -768,6 +782,7 @@ Next ==
                   \/ Enabled("SetPublic") /\ SetPublic
                   \/ Enabled("RemovePlainChild") /\ RemovePlainChild
                   \/ Enabled("CopyEdit") /\ CopyEdit
+                  \/ Enabled("CopyPurge") /\ CopyPurge
                   \/ Enabled("AddObjectData") /\ AddObjectData
                   \/ Enabled("AddBadData") /\ AddBadData
                   \/ Enabled("ReopenRemoveHole") /\ ReopenRemoveHole
@@ -845,6 +860,9 @@ ProtectedStay ==
     [][(last'.act \in {"RemoveHoleViaWorkspace", "RemoveDataViaWorkspace"} /\ last'.out = "refused") => s' = s]_vars
 
 PlainChildClean == s.plain \in {"none", "live", "gone"}
+
+\* a copy stays readable whatever else happens in its workspace
+CopiesReadable == [][last'.act = "CopyPurge" => last'.out = "ok"]_vars
 
 InvNames == <<"AllTiled", "NoDuplicateOwner", "RowsOwnedLive", "OneRecordEach", "KeysMatchChildren",
               "PgsConsistent", "ReadBackOK", "TableOK", "NeverBroken", "GroupChildrenLive", "PgCacheFresh", "PlainChildClean">>
